@@ -482,6 +482,14 @@ def createRoot (fs1 : FS) (f : String) (h : H5File) (c : Nat) : FS × Outcome :=
     (setFile fs1 f ⟨setEntry (rootParts h.entries h.next c) [] (.group o (attrsUpdate a (infoAttrs c))), h.next + 5⟩, .ok)
   | _ => (fs1, .corner "file without root group")
 
+/-- the entry at `D` of file `f` is a soft or external link whose traversal never ends (link budget
+exhausted: a cycle of links) -/
+def untraversableAt (fs : FS) (f : String) (h : H5File) (D : Path) : Bool :=
+  match lookupK h.entries D with
+  | some (.soft t) => loops fs f t
+  | some (.ext g t) => loops fs g t
+  | _ => false
+
 /-- `create` at a group path `p = parent/x`: `create_group(path)`; on ValueError (the name exists)
 `del f[path]` and `create_group` again — whatever was linked there (a group with everything below
 it, a soft link) is gone -/
@@ -489,6 +497,10 @@ def createAt (fs1 : FS) (f : String) (h : H5File) (p : Path) (x : String) (c : N
   match mkdirP fs1 f h [] p.dropLast with
   | .error o => (fs1, o)
   | .ok (h1, P) =>
+    -- the name is a link that cannot be traversed (a cycle of links): `create_group` fails with
+    -- RuntimeError "too many links", not ValueError, so nothing is deleted and nothing changes
+    -- (a link that merely dangles raises ValueError and is replaced)
+    if untraversableAt fs1 f h1 (P ++ [x]) then (fs1, .err .runtime) else
     if sharedAt h1.entries P then (fs1, .corner "collection created inside a multiply linked group")
     else
       (setFile fs1 f ⟨putRegion h1.entries (P ++ [x]) (coolerRegion h1.next c), h1.next + 5⟩, .ok)
